@@ -81,6 +81,13 @@ def run(tier, seed):
     _av, _an, _ast = _sqa.run_stories(PROP, fxv, rd, "ackstory", 2 if tier == "quick" else 8,
                                       "flush() acknowledged while the worker still had the batch in hand")
     viol = viol + _av
+    # handshake of the sharded write-behind: recorded executions with several shards / workers / client threads (bursts
+    # beyond one journal batch and beyond the 16 MiB buffer, a pinned reader, a clean close) judged by Coord.tla's own
+    # formulas (TraceCoord.tla: NothingLost, AckCoversAll, CloseCovers, DrainAll)
+    import coordengine as _co
+    _cv, _ccov = _co.part(PROP, tier, rng, fxv, rd)
+    viol = viol + _cv
+    cov["coord"] = _ccov
     return {"level": "model_checking", "coverage": cov, "violations": viol,
             "assumptions": ["device observer sees every write and fsync (checked by the byte-for-byte replay in selftest)",
                             "block-granular loss/reordering of un-synced writes; journal slots and metadata copies atomic",
@@ -88,6 +95,9 @@ def run(tier, seed):
 
 
 def replay(path):
+    import coordengine as _co
+    if _co.is_coord(path):
+        return _co.replay_main(PROP, path)
     if os.path.basename(path).startswith("ackflush_"):
         import concengine as cc
         r = cc.validate(v.run_dir("c02_replay"), path, ["FlushAckComplete"])
